@@ -37,6 +37,9 @@ TEXT = {
     'C15': dict(level=_L + 'Clauses: renamer and scope analysis visit every identifier/expression/pattern child; navigation uses the checker\'s own SSA result.',
                 design_ref='DESIGN.md §3.1, §3.12', note=_N,
                 technique='visitor-completeness analysis; who-computes call-graph rule'),
+    'C12': dict(level=_L + 'Clause decided: the content of rendered diagnostics does not depend on hash seeds (no hash-iteration order reaches an error report argument); temp-name counters are synchronised on every path. Not decided: equivalence of the programs emitted under different module enumeration orders or thread counts.',
+                design_ref='DESIGN.md §3 (ORDER-TAINT, COUNTER-SYNC)', note=_N,
+                technique='interprocedural order-taint dataflow from HashMap/HashSet iteration to error-report arguments over rustc MIR; path rule for counter synchronisation'),
     'C14': dict(level=_L + 'Clauses decided: a node location built by the parser encloses its sub-parts; an identifier takes location and name from one token. Not decided: the lexer\'s line/column bookkeeping, positions inside the document, sibling overlap.',
                 design_ref='DESIGN.md §3 (LOC-ENCLOSES, NAME-LOC-PAIR)', note=_N,
                 technique='provenance dataflow of Location values (token / child / union sources with their program points) over the parser MIR, checked by set dominance at each node construction'),
@@ -45,7 +48,6 @@ TEXT = {
 
 NOT_APPLICABLE = {
     'C07': 'exactness of the pattern usefulness algorithm is algorithmic correctness over an infinite data domain; no clause of it is visible in the shape of the code beyond what rustc\'s exhaustive match already enforces (DESIGN.md §5)',
-    'C12': 'determinism under hash seeds/schedules asks for semantic equivalence of two emitted programs; hash-order provably does reach synthetic numbering by design, so a ban-hash-iteration lint would fire on correct code (DESIGN.md §5)',
     'C13': 'metamorphic relation between two checker runs on two programs; the decisions are value dependent (hint flow, first solution wins); no structural necessary condition in reach (DESIGN.md §5)',
     'C16': 'property of strings obtained by splicing pretty-printed fragments into arbitrary text at AST-derived ranges; not a property of code shape (DESIGN.md §5)',
     'C18': 'functional correctness of samlang-source AVL collections over all operation sequences; outside what a structural analysis of the Rust toolchain can establish (DESIGN.md §5)',
